@@ -10,6 +10,17 @@ def tyOf (j : Json) : Except String Ty := do
 
 def tyJ (t : Ty) : Json := Json.arr #[Json.str t.cls, Json.str t.txt]
 
+/-- an operation: a name, or [name, attributes] -/
+def opOf (j : Json) : Except String OpCode := do
+  match j.getStr? with
+  | .ok s => return ⟨s, ""⟩
+  | .error _ => match (← arr j).toList with
+    | [c, a] => return ⟨← str c, ← str a⟩
+    | _ => throw "bad operation"
+
+def opJ (o : OpCode) : Json :=
+  if o.attr == "" then Json.str o.cls else Json.arr #[Json.str o.cls, Json.str o.attr]
+
 def ksrcOf (j : Json) : Except String KSrc := do
   match (← arr j).toList with
   | [t, x] =>
@@ -21,7 +32,7 @@ def ksrcOf (j : Json) : Except String KSrc := do
 
 def kopOf (j : Json) : Except String KOp := do
   match (← arr j).toList with
-  | [n, t, os] => return { name := ← str n, resTy := ← tyOf t, operands := ← listOf ksrcOf os }
+  | [n, t, os] => return { name := ← opOf n, resTy := ← tyOf t, operands := ← listOf ksrcOf os }
   | _ => throw "bad kop"
 
 def bodyOf (j : Json) : Except String KBody := do
@@ -47,7 +58,7 @@ partial def srcOf (j : Json) : Except String Src := do
 /-- with F09 the operation of every region reads the block arguments by position: wiring = [0..n-1] -/
 def nodeJ (n : Node) : Json :=
   Json.mkObj [("id", Json.str n.id),
-    ("ops", jList (fun o => Json.arr #[Json.str o, jList jNat (List.range n.operands.length)]) n.ops),
+    ("ops", jList (fun o => Json.arr #[opJ o, jList jNat (List.range n.operands.length)]) n.ops),
     ("operands", jList srcJ n.operands), ("sw", jNat n.sw), ("res_ty", tyJ n.resTy)]
 
 def swJ : SwUse → Json
@@ -66,7 +77,7 @@ def nodeOf (j : Json) : Except String Node := do
     | [n, w] =>
       let wl ← listOf int w
       if wl != (List.range nOps.length).map Int.ofNat then throw "non-positional region wiring: outside the model"
-      str n
+      opOf n
     | _ => throw "bad op entry") (← field j "ops")
   return { id := ← str (← field j "id"), ops := ops, operands := nOps, sw := ← nat (← field j "sw"),
            resTy := ← tyOf (← field j "res_ty") }
@@ -85,7 +96,7 @@ def raisedJ (e : Err) : Json := Json.mkObj [("raised", Json.str e.name)]
 
 partial def termJ : HTerm → Json
   | .inp i => Json.arr #[Json.str "i", jNat i]
-  | .app op args => Json.arr #[Json.str op, Json.arr (args.map termJ).toArray]
+  | .app op args => Json.arr #[opJ op, Json.arr (args.map termJ).toArray]
 
 def freeEval (A : PE) (swv : Nat → Nat) : Option HTerm :=
   A.eval HTerm.app swv ((List.range A.argTys.length).map HTerm.inp)
@@ -102,7 +113,10 @@ correspondence check has just compared with the real ones. Since the deepening r
 kernels is a hypothesis of `C20_history`; `wf` / `covers` of the merged graph are theorems (`reachable_inv`)
 and are kept here as a cross-check of the model. -/
 def stepJ (A : PE) (ks : List PE) (merged : List Nat) (mergedOnly : Bool := false) : Json :=
-  let hyp := A.wf && swTargetsOk A && (merged.filterMap (ks[·]?)).all (fun k => k.kwf && covers A k)
+  let mk := merged.filterMap (ks[·]?)
+  -- `attr_clause` of `C20_history_partial`: the class determines the operation among the merged kernels
+  let clause := classFun (allOps mk)
+  let hyp := A.wf && swTargetsOk A && mk.all (fun k => k.kwf) && (!clause || mk.all (fun k => covers A k))
   let self := match decode A A with
     | .error e => raisedJ e
     | .ok sw => Json.mkObj [("sw", jList jNat sw)]
@@ -110,7 +124,7 @@ def stepJ (A : PE) (ks : List PE) (merged : List Nat) (mergedOnly : Bool := fals
   -- unmerged kernel exhausts it)
   let decs := (List.range ks.length).zip ks |>.map fun (i, k) =>
     if mergedOnly && !merged.contains i then Json.null else decJ A k
-  Json.mkObj [("pe", peJ A), ("ssa_ok", Json.bool A.ssaOk), ("hyp_ok", Json.bool hyp),
+  Json.mkObj [("pe", peJ A), ("ssa_ok", Json.bool A.ssaOk), ("hyp_ok", Json.bool hyp), ("attr_clause", Json.bool clause),
     ("true", jNat A.trueSwitches), ("dec", Json.arr decs.toArray), ("self", self)]
 
 /-- the kernels of one group merged into one graph (the first one is the base) -/
@@ -158,7 +172,7 @@ def history : Handler := fun j => do
 def fromOps : Handler := fun j => do
   let ops ← listOf (fun o => do
     match (← arr o).toList with
-    | [n, tys, r] => return ((← str n), (← listOf tyOf tys), (← tyOf r))
+    | [n, tys, r] => return ((← opOf n), (← listOf tyOf tys), (← tyOf r))
     | _ => throw "bad op") (← field j "ops")
   match peFromOperations ops with
   | .error e => return raisedJ e
